@@ -759,7 +759,7 @@ func ruleC28(c *Ctx, r *Report) {
 		}
 		name := c.FuncName(s.Fn)
 		cons := "call:" + which + "@" + branchLabel(c, s.In)
-		if why, ok := allowed[s.Fn]; ok {
+		if why, ok := allowedVia(c, allowed, s.Fn); ok {
 			r.ok("WM-C28a", name, cons, c.Pos(s.In.Pos()), why)
 		} else if s.Fn == tryFuse && which == "SetStatusDown" {
 			r.ok("WM-C28a", name, cons, c.Pos(s.In.Pos()), "circuit breaker (C26/C27)")
